@@ -55,6 +55,9 @@ func evalDoc(expr string, doc *ref.V) (*ref.V, []*ref.V, error) {
 	return evalDocFmt(expr, doc, "yaml")
 }
 
+// (a stream of two JSON texts separated by `---` is YAML, not a JSON stream)
+func inFmt2(string) string { return "yaml" }
+
 // evalDocFmt hands the JSON text of doc to the named decoder ("yaml" or "json").
 func evalDocFmt(expr string, doc *ref.V, inFmt string) (*ref.V, []*ref.V, error) {
 	out, err, pan := yqx.Eval(expr, doc.JSON()+"\n", inFmt, "json")
@@ -116,8 +119,8 @@ func (p c02) Run(w *mon.Worker, idx int) mon.Result {
 		}
 	}
 	evalDoc := func(expr string, d *ref.V) (*ref.V, []*ref.V, error) { return evalDocFmt(expr, d, inFmt) }
-	law := []string{"put", "put", "getput", "putput", "update", "compound", "put", "sharing", "overwrite", "rhsread", "update", "rhsmerge"}[idx%12]
-	opts := gen.PathOpts{AllowCreate: law == "put" || law == "putput", AllowMulti: true, NoRoot: true}
+	law := []string{"put", "put", "getput", "putput", "update", "compound", "put", "sharing", "overwrite", "rhsread", "update", "rhsmerge", "eaunion"}[idx%13]
+	opts := gen.PathOpts{AllowCreate: law == "put" || law == "putput" || law == "eaunion", AllowMulti: true, NoRoot: true}
 	opts.MultiIdx = (law == "update" || law == "put") && r.IntN(6) == 0
 	path := gen.RandomPath(r, doc, opts)
 	pstr := path.String()
@@ -262,6 +265,77 @@ func (p c02) Run(w *mon.Worker, idx int) mon.Result {
 			return fail("`%s`\n expected %s\n observed %s", expr, want, got)
 		}
 		return hold("intermediate overwritten with the string")
+
+	case "eaunion":
+		// eval-all over two documents: a left-hand side that is the union of the same path in each document
+		// addresses both locations — also when the two hold equal values, also when the path has to be created
+		if terr != nil || len(targets) == 0 || nested || path.Pred != nil || pathHasMultiAfterWrite(path) {
+			res.Nontrivial = false
+			return hold("path not suitable for the two-document form")
+		}
+		d2 := doc.Copy()
+		// the second document differs from the first in a leaf or two (or not at all)
+		if r.IntN(3) > 0 {
+			var leaves []*ref.V
+			d2.Walk(nil, func(_ []any, n *ref.V) {
+				if n.IsScalar() {
+					leaves = append(leaves, n)
+				}
+			})
+			if len(leaves) > 0 {
+				*leaves[r.IntN(len(leaves))] = *gen.SimpleValue(r, 0)
+			}
+		}
+		// (scalars only: in eval-all a collect or object literal gathers one result per document of the context)
+		v1, v2 := gen.SimpleValue(r, 0), gen.SimpleValue(r, 0)
+		lhs := fmt.Sprintf("(select(di == 0)%s, select(di == 1)%s)", pstr, pstr)
+		if strings.HasPrefix(pstr, "(") {
+			res.Nontrivial = false
+			return hold("path not suitable")
+		}
+		var expr string
+		switch r.IntN(3) {
+		case 0:
+			expr = lhs + " = " + ref.Lit(v2).String()
+		case 1:
+			expr = lhs + " = " + ref.Lit(v1).String() + " | " + lhs + " = " + ref.Lit(v2).String()
+		default:
+			expr = lhs + " |= " + ref.Lit(v2).String()
+		}
+		cs["expr"], cs["doc"] = expr, doc.JSON()+" --- "+d2.JSON()
+		res.Sig = fmt.Sprintf("eaunion|%s|%x", pathShape(path), doc.ShapeHash())
+		stream := doc.JSON() + "\n---\n" + d2.JSON() + "\n"
+		out, yerr, pan := yqx.EvalAll(expr, stream, inFmt2(inFmt), "json")
+		res.Evals++
+		if pan != nil {
+			return fail("`%s` panicked: %s", expr, pan.Sig())
+		}
+		if yerr != nil {
+			return fail("`%s` (eval-all over two documents) failed: %v", expr, yerr)
+		}
+		gs, perr := ref.ParseJSONStream(out)
+		if perr != nil || len(gs) != 2 {
+			return fail("`%s` (eval-all): expected two documents back, got %q", expr, clipStr(out, 300))
+		}
+		for k, dk := range []*ref.V{doc, d2} {
+			tk, _, _, ek := ref.ResolveFull(dk, path, true)
+			if ek != nil {
+				res.Nontrivial = false
+				return hold("path not addressable in the second document")
+			}
+			want := dk.Copy()
+			for _, t := range tk {
+				if err := ref.SetPath(want, t.Path, v2); err != nil {
+					res.Nontrivial = false
+					return hold("model: incompatible while writing")
+				}
+			}
+			if !ref.EqualNum(gs[k], want) {
+				return fail("`%s` (eval-all over two documents): document %d\n expected %s\n observed %s", expr, k, want, gs[k])
+			}
+		}
+		res.Nontrivial = true
+		return hold("both documents written")
 
 	case "rhsmerge":
 		// `p = (A op B)` with A and B containers of the same document that share keys: the merge works on
